@@ -73,6 +73,15 @@ Theorem C16_held_by_at_most_one : forall h x j,
 Proof. exact handout_held_le_1. Qed.
 Print Assumptions C16_held_by_at_most_one.
 
+(* "... again only if its worker's connection drops": with no hypothesis on x, the n-th hand-out of x needs n-1
+   re-queues by the shutdown of a dropped connection; a second hand-out needs at least one. *)
+Theorem C16_handout_again_needs_requeue : forall h x,
+  let s := run h init in
+  (occ x (s_handed s) <= occ x (s_requeued s) + 1)%nat /\
+  (2 <= occ x (s_handed s) -> 1 <= occ x (s_requeued s))%nat.
+Proof. exact handout_again_needs_requeue. Qed.
+Print Assumptions C16_handout_again_needs_requeue.
+
 (* what was never accepted is never handed out or re-queued *)
 Theorem C16_handout_none : forall h x,
   let s := run h init in
